@@ -76,6 +76,9 @@ def sensitivity(argv):
     ap.add_argument("--with-tests", action="store_true")
     ap.add_argument("--seeded", action="store_true", help="also run the sub-agent changes under /verif/seeded")
     ap.add_argument("--seeded-only", action="store_true")
+    ap.add_argument("--neutral-filter", default=None, help="run only the neutral patches whose name contains this (\"none\" skips them all)")
+    ap.add_argument("--seeded-filter", default=None, help="run only the seeded changes whose id matches this regular expression")
+    ap.add_argument("--no-mutants", action="store_true")
     ap.add_argument("--tier", default="quick")
     ap.add_argument("--jobs", type=int, default=None)
     a = ap.parse_args(argv)
@@ -97,6 +100,12 @@ def sensitivity(argv):
         if a.mutant and a.mutant not in name:
             continue
         neutral = os.path.basename(name).startswith("neutral_")
+        if neutral and a.neutral_filter is not None and a.neutral_filter not in name:
+            continue
+        if name.startswith("seeded/") and a.seeded_filter and not re.search(a.seeded_filter, name):
+            continue
+        if a.no_mutants and not neutral and not name.startswith("seeded/"):
+            continue
         # a neutral patch must leave EVERY check green; a mutant is run against its own property
         props = ["C09", "C05", "C15"] if neutral else [meta.get("property")]
         for prop in props:
